@@ -100,6 +100,13 @@ def gen_directed():
                     cases.append("C %s %d u seq 1 %s/%s 0,0+1,1,0" % (sink, cap, ",".join(p0), ",".join(p1)))
                     # the other way round: t1's [b] holds while t0's [a] arrives
                     cases.append("C %s %d u seq 1 %s/%s 0,1+0,1,0" % (sink, cap, ",".join(p0), ",".join(p1)))
+                    # an uncontended flush right after the overlap (by either thread), nothing emitted in between: it must
+                    # deliver whatever the overlapping calls left buffered
+                    for fl in ("F", "f"):
+                        q0 = [emit(0, 0, 7, True), kinds[a](0, 1), fl, emit(0, 3, 6, False)]
+                        q1 = [kinds[b](1, 0), fl, emit(1, 2, 7, True)]
+                        cases.append("C %s %d u seq 1 %s/%s 0,0+1,0,1,0,1" % (sink, cap, ",".join(q0), ",".join(q1)))
+                        cases.append("C %s %d u seq 1 %s/%s 0,1+0,1,0,0,1" % (sink, cap, ",".join(q0), ",".join(q1)))
     return cases
 
 
